@@ -2282,6 +2282,11 @@ write_module_class(ostream &out, Object *obj) {
             out << "  }\n";
           }
 
+          // If converting the operand raised an exception, we must not return
+          // a result (NotImplemented) with that exception still set.
+          out << "  if (PyErr_Occurred()) {\n";
+          out << "    return nullptr;\n";
+          out << "  }\n";
           out << "  return Py_NewRef(Py_NotImplemented);\n";
           out << "}\n\n";
         }
